@@ -646,7 +646,17 @@ impl Sim {
         ctx.count("c11.notifications-checked");
     }
 
-    /// hook invariants after any step: one heap entry per awaiting request with the
+    /// A structural observation on the hooked state that the eager design of today's code
+    /// satisfies (one table slot and one timer entry per awaiting request, nothing else) but that
+    /// no property demands: another correct design (lazy deletion, tombstones) would not.  It is
+    /// therefore recorded in the evidence (counter `hook.suspicion.<kind>`, zero on today's tree)
+    /// and never a verdict; if the state matters it becomes observable at the boundary, where
+    /// the C05 / C06 / C11 / C12 monitors judge it.
+    fn suspect(&mut self, ctx: &mut Ctx, kind: &str) {
+        ctx.count(&format!("hook.suspicion.{}", kind));
+    }
+
+    /// hook observations after any step: one heap entry per awaiting request with the
     /// model's expiry; no entry / table slot for anything else
     fn check_hook_tables(&mut self, ctx: &mut Ctx, step: &Step) {
         let Some(after) = step.after.clone() else { return };
@@ -656,21 +666,18 @@ impl Sim {
         for id in &out_ids {
             if !aw.contains(id) {
                 let known = self.index.contains_key(id);
-                self.viol(
-                    ctx,
-                    M_C05 | M_C12,
-                    if known { "hook:finished-transaction-still-in-table" } else { "hook:unknown-transaction-in-table" },
-                    format!("transaction {} is in the client's table but has {}", short_id(id), if known { "already reached a final outcome" } else { "never been sent" }),
-                );
+                self.suspect(ctx, if known { "finished-transaction-still-in-table" } else { "unknown-transaction-in-table" });
             }
         }
         for id in &aw {
             if !out_ids.contains(id) {
+                // design-independent: whatever the representation, a request that awaits a
+                // response must be among the outstanding transactions the hook reports
                 self.viol(ctx, M_C05 | M_C12, "hook:awaiting-transaction-missing-from-table", format!("transaction {} awaits a response but is not in the table", short_id(id)));
             }
         }
-        if self.on(M_C12) && out_ids.len() != aw.len() {
-            self.viol(ctx, M_C12, "c12:table-size-differs-from-unfinished-count", format!("table holds {} entries, {} requests are unfinished", out_ids.len(), aw.len()));
+        if out_ids.len() != aw.len() {
+            self.suspect(ctx, "table-size-differs-from-unfinished-count");
         }
         // C11 / C05 / C06: heap entries
         let mut seen: HashMap<Id, usize> = HashMap::new();
@@ -681,24 +688,23 @@ impl Sim {
             match self.index.get(&id) {
                 Some(i) if self.txs[*i].state == TxState::Awaiting => {
                     if exp != self.txs[*i].expiry as i128 {
-                        let (e, t) = (self.txs[*i].expiry, self.txs[*i].t0);
-                        self.viol(
-                            ctx,
-                            M_C06 | M_C11,
-                            "hook:pending-expiry-differs-from-schedule",
-                            format!("request {} (t0={}) has pending expiry {} but the schedule says {}", short_id(&id), t, exp, e),
-                        );
+                        self.suspect(ctx, "pending-expiry-differs-from-schedule");
                     }
                 }
                 _ => {
-                    self.viol(ctx, M_C05 | M_C11, "hook:timeout-entry-for-finished-transaction", format!("a timeout entry exists for {} which is not awaiting a response", short_id(&id)));
+                    self.suspect(ctx, "timeout-entry-for-finished-transaction");
                 }
             }
         }
         for id in &aw {
             let n = seen.get(id).copied().unwrap_or(0);
             if n != 1 {
-                self.viol(ctx, M_C11 | M_C05 | M_C03, "hook:timeout-entries-per-request", format!("awaiting request {} has {} timeout entries (expected 1)", short_id(id), n));
+                if n == 0 {
+                    // design-independent as well: no pending deadline at all for an awaiting request
+                    self.viol(ctx, M_C11 | M_C05 | M_C03, "hook:awaiting-request-without-timeout-entry", format!("awaiting request {} has no timeout entry", short_id(id)));
+                } else {
+                    self.suspect(ctx, "several-timeout-entries-per-request");
+                }
             }
         }
         ctx.count("hook.table-checks");
